@@ -44,6 +44,6 @@ Extraction "model"
   c01_d17_class c01_d17_class_dir dchk0 pkt_size hacc_add hacc0
   c04_vsock_ack_ok c04_d19_class c06_no_resend_acked c05_rto_exit_ok c05_slow_start_ok
   c14_datagram_ok c14_segments_ok c08_deadline_ok
-  c09_shift_ok c09_first_bad c09_within_tol c09_guard_trace_cubic drop_vsock poll_finished c03_post_drop_ok c03_drop_wakes_ok
+  c09_shift_ok c09_first_bad c09_within_tol c09_guard_trace_cubic c09_guard_first_bad_cubic drop_vsock poll_finished c03_post_drop_ok c03_drop_wakes_ok
   dstate_new dstep drun dtrace cleanup_accept_queue push_acceptor c12_step_ok c13_step_ok c12_syn_fresh_ok
   cubic_new cubic_trace c15_obs_ok c15_obs_core f64_view BETA_CUBIC C_CUBIC cbrt_cr.
